@@ -157,7 +157,8 @@ impl Adversary {
             for ek in extra.split(',').filter(|x| !x.is_empty()) {
                 let mut b: HashMap<&str, &str> = HashMap::new();
                 b.insert("k", ek);
-                if let Some(n) = a.get("names") {
+                // chainnames=<names>: the further certificates are issued for these names instead of the end entity's
+                if let Some(n) = a.get("chainnames").or(a.get("names")) {
                     b.insert("names", n);
                 }
                 more.push(rustls::pki_types::CertificateDer::from(certs::build_cert(&b)));
